@@ -64,46 +64,52 @@ def hgetTag (p : Profile) (area : Bytes) (k : HKind) : Res (Option View) :=
 namespace HSweep
 open Sweep
 
-def hgetter (name : String) (g : Res (Option View)) (body : View → String) : String :=
-  name ++ "=" ++
+def hgetter (name : String) (g : Res (Option View)) (body : View → Obs) : Obs :=
+  t (name ++ "=") ++
   (match g with
-   | .ok none => "-"
-   | .ok (some v) => s!"@{16 + v.off}:{v.sov}" ++ "{" ++ body v ++ "}"
-   | .panic => "P" | .oob => "OOB" | .ub => "UB") ++ ";"
+   | .ok none => t "-"
+   | .ok (some v) => t (s!"@{16 + v.off}:{v.sov}" ++ "{") ++ body v ++ t "}"
+   | .panic => t "P" | .oob => [.oob] | .ub => [.ub]) ++ t ";"
 
-def common (T : Bytes) : String := fields T [("typ", 0, 2), ("flags", 2, 2), ("size", 4, 4)]
+def common (T : Bytes) : Obs := fields T [("typ", 0, 2), ("flags", 2, 2), ("size", 4, 4)]
 
-def hsweepLoaded (p : Profile) (R : Bytes) (hl : HLoaded) : String :=
+/-- accessors of a fixed-size header tag: an undeclared enum value in one of its enum-typed fields is `ub` -/
+def simpleBody (k : HKind) (T : Bytes) : Obs :=
+  if enumOk k T then common T ++ fields T k.fields ++ t "debug=true," else [.ub]
+
+def inforeqBody (T : Bytes) (v : View) : Obs :=
+  if enumOk .inforeq T then
+    common T ++ t s!"requests=[{16 + v.off + 8}:{v.n}|" ++
+      colonJoin ((List.range v.n).map fun i => rd32 T (8 + 4 * i)) ++ t "],debug=true,"
+  else [.ub]
+
+def headS (area : Bytes) (w : List Item × End) (hl : HLoaded) : Obs :=
+  t (s!"ld=ok({hl.magic}:{hl.arch}:{hl.length}:{hl.checksum}:true);" ++
+    "tags=" ++ String.join (w.1.map fun it => s!"{16 + it.off}:{it.typ}:{le16 area (it.off + 2)}:{it.size}:{it.pl},")) ++
+    walkEndS w.2 ++ t ";"
+
+def hsweepLoaded (p : Profile) (R : Bytes) (hl : HLoaded) : Obs :=
   let area := R.drop 16
   let w := tagsOf p .ht area
   let ext (v : View) : Bytes := v.bytes area
   let g (k : HKind) := hgetTag p area k
-  let simple (name : String) (k : HKind) :=
-    hgetter name (g k) (fun v => let T := ext v
-      if enumOk k T then common T ++ fields T k.fields ++ "debug=true," else "UB")
-  let head := s!"ld=ok({hl.magic}:{hl.arch}:{hl.length}:{hl.checksum}:true);" ++
-    "tags=" ++ String.join (w.1.map fun it => s!"{16 + it.off}:{it.typ}:{le16 area (it.off + 2)}:{it.size}:{it.pl},") ++
-    (match w.2 with | .done => "|done" | .bad => "|panic" | .oob => "|OOB" | .ub => "|UB") ++ ";"
+  let simple (name : String) (k : HKind) := hgetter name (g k) (fun v => simpleBody k (ext v))
   -- every getter compares `tag.header().typ()` (an enum) of every walked tag with its ID: an undeclared type value is `ub`
-  if w.1.any (fun it => it.typ > 10) then head ++ "UB;" else
-  head ++
-  hgetter "inforeq" (g .inforeq) (fun v => let T := ext v
-    if enumOk .inforeq T then
-      common T ++ s!"requests=[{16 + v.off + 8}:{v.n}|" ++
-        ":".intercalate ((List.range v.n).map fun i => resS toString (rd32 T (8 + 4 * i))) ++ "],debug=true,"
-    else "UB") ++
+  if w.1.any (fun it => it.typ > 10) then headS area w hl ++ [.ub] ++ t ";" else
+  headS area w hl ++
+  hgetter "inforeq" (g .inforeq) (fun v => inforeqBody (ext v) v) ++
   simple "address" .address ++ simple "entry" .entry ++ simple "efi32" .efi32 ++ simple "efi64" .efi64 ++
   simple "console" .console ++ simple "fb" .fb ++ simple "modalign" .modalign ++ simple "efibs" .efibs ++
   simple "reloc" .reloc ++
-  "debug=ok;"
+  t "debug=ok;"
 
-def hsweep (p : Profile) (mem : Bytes) : String :=
+def hsweep (p : Profile) (mem : Bytes) : Obs :=
   match hload p false mem with
   | .ok (.ok hl) => hsweepLoaded p (mem.take hl.length) hl
-  | .ok (.error (.memory e)) => s!"ld=err:{memErrStr e};"
-  | .ok (.error .magicNotFound) => "ld=err:MagicNotFound;"
-  | .ok (.error .checksumMismatch) => "ld=err:ChecksumMismatch;"
-  | .panic => "ld=panic;" | .oob => "ld=OOB;" | .ub => "ld=UB;"
+  | .ok (.error (.memory e)) => t s!"ld=err:{memErrStr e};"
+  | .ok (.error .magicNotFound) => t "ld=err:MagicNotFound;"
+  | .ok (.error .checksumMismatch) => t "ld=err:ChecksumMismatch;"
+  | .panic => t "ld=panic;" | .oob => t "ld=" ++ [.oob] ++ t ";" | .ub => t "ld=" ++ [.ub] ++ t ";"
 
 end HSweep
 end Mb2
